@@ -1,9 +1,156 @@
 package main
 
-// stress histories of engine "conc" (see eng_conc.go)
+// stress histories of engine "conc" (see eng_conc.go).
+//
+// atoms   : hist a k=<threads> init=<v0>,<v1>,<v2> | <ops of thread 0> | <ops of thread 1> …
+//   d<a> deref   r<a>=<v> reset!   s<a>+<n> swap! (fn [x] (+ x n))   s<a>! swap! with a throwing function
+//   s<a>@<b> swap! (fn [x] (do @b (+ x 1)))      (b may be a: the function reads the atom being swapped)
+//   s<a>^<b> swap! (fn [x] (do (swap! b inc) (+ x 1)))   (b ≠ a; b is only read at top level in such a case)
+//   p<a> (str a)                                  (race cases only)
+// futures : hist f k=<threads> fut=<body0>,<body1> | <ops> | …
+//   bodies  ret<n>  throw<n>  sleep<ms>:<n> (honours cancellation)  hsleep<ms>:<n> (ignores it)
+//   D<f> deref   ?d<f> future-done?   ?c<f> future-cancelled?   C<f> future-cancel
+// extra column (history): one record per completed op  <thread>.<index>:<inv>:<resp>:<result>
+//   results v<n> | e<n> (thrown n) | ep (plain Go error) | T | F ; then " final=<v0>,<v1>,<v2>" for atoms.
 
-func genHist(e *concEngine, r *rng, n int, tier string, emit func(string)) {}
+import (
+	"fmt"
+	"strings"
+)
 
-func runHist(payload string) (string, string) { return "bad-case", "-" }
+const maxHistOps = 24
 
-func runRace(f []string) string { return "bad-case" }
+func genAtomOp(r *rng, flavour int, self bool) string {
+	a := r.intn(2)
+	if flavour == 3 { // with prints (race cases)
+		if r.chance(1, 3) {
+			return fmt.Sprintf("p%d", a)
+		}
+		flavour = 0
+	}
+	switch r.intn(10) {
+	case 0, 1, 2:
+		return fmt.Sprintf("d%d", a)
+	case 3:
+		if flavour == 2 { // nested-inc target a1 is only read at top level
+			return "d1"
+		}
+		return fmt.Sprintf("r%d=%d", a, r.intn(50))
+	case 4:
+		if flavour == 2 {
+			return "s0!"
+		}
+		return fmt.Sprintf("s%d!", a)
+	case 5, 6:
+		switch flavour {
+		case 1:
+			b := r.intn(3)
+			if !self && b == a {
+				b = 2
+			}
+			return fmt.Sprintf("s%d@%d", a, b)
+		case 2:
+			return "s0^1"
+		}
+	}
+	if flavour == 2 {
+		a = 0
+	}
+	return fmt.Sprintf("s%d+%d", a, 1+r.intn(3))
+}
+
+func genFutOp(r *rng, nf int) string {
+	f := r.intn(nf)
+	switch r.intn(8) {
+	case 0, 1, 2:
+		return fmt.Sprintf("D%d", f)
+	case 3, 4:
+		return fmt.Sprintf("?d%d", f)
+	case 5:
+		return fmt.Sprintf("?c%d", f)
+	case 6:
+		return fmt.Sprintf("C%d", f)
+	}
+	return fmt.Sprintf("?d%d", f)
+}
+
+// genFutHistOnly: deref-only histories (no flag access at all)
+func genFutHistOnly(r *rng, derefOnly bool) string {
+	nf := 1 + r.intn(2)
+	var bodies []string
+	for i := 0; i < nf; i++ {
+		bodies = append(bodies, genBody(r))
+	}
+	k, ts := genThreads(r, func() string { return fmt.Sprintf("D%d", r.intn(nf)) })
+	return fmt.Sprintf("hist f k=%d fut=%s | %s", k, strings.Join(bodies, ","), ts)
+}
+
+func genBody(r *rng) string {
+	switch r.intn(6) {
+	case 0, 1:
+		return fmt.Sprintf("ret%d", r.intn(20))
+	case 2:
+		return fmt.Sprintf("throw%d", r.intn(20))
+	case 3, 4:
+		return fmt.Sprintf("sleep%d:%d", 1+r.intn(3), r.intn(20))
+	}
+	return fmt.Sprintf("hsleep%d:%d", 1+r.intn(2), r.intn(20))
+}
+
+func genThreads(r *rng, op func() string) (int, string) {
+	k := []int{2, 4, 8}[r.intn(3)]
+	per := 1 + r.intn(maxHistOps/k)
+	if per > 6 {
+		per = 6
+	}
+	var ts []string
+	for t := 0; t < k; t++ {
+		var ops []string
+		for i := 0; i < per; i++ {
+			ops = append(ops, op())
+		}
+		ts = append(ts, strings.Join(ops, " "))
+	}
+	return k, strings.Join(ts, " | ")
+}
+
+func genAtomHist(r *rng, flavour int, self bool) string {
+	k, ts := genThreads(r, func() string { return genAtomOp(r, flavour, self) })
+	return fmt.Sprintf("hist a k=%d init=%d,%d,1 | %s", k, r.intn(5), r.intn(5), ts)
+}
+
+func genFutHist(r *rng) string {
+	nf := 1 + r.intn(2)
+	var bodies []string
+	for i := 0; i < nf; i++ {
+		bodies = append(bodies, genBody(r))
+	}
+	k, ts := genThreads(r, func() string { return genFutOp(r, nf) })
+	return fmt.Sprintf("hist f k=%d fut=%s | %s", k, strings.Join(bodies, ","), ts)
+}
+
+func genHist(e *concEngine, r *rng, n int, tier string, emit func(string)) {
+	rn := 25
+	if tier == "thorough" {
+		rn = 400
+	}
+	for _, what := range raceOrder {
+		if e.wants(raceWhats[what]) {
+			emit(fmt.Sprintf("race %s %d %d", what, 1+r.intn(1000000), rn))
+		}
+	}
+	selfLeft := 3 // histories whose update functions read the swapped atom (each costs a watchdog period while D13 is open)
+	for i := 0; i < n; i++ {
+		if e.wants("a") && (e.half == "a" || i%2 == 0) {
+			flavour := r.intn(3)
+			self := false
+			if flavour == 1 && selfLeft > 0 && r.chance(1, 3) {
+				self = true
+				selfLeft--
+			}
+			emit(genAtomHist(r, flavour, self))
+		} else if e.wants("f") {
+			emit(genFutHist(r))
+		}
+	}
+}
